@@ -26,9 +26,8 @@ func vrtCmdHeader(ls []string, m wt.AggregationMethod, xff float32) *wt.Header {
 }
 
 func vrtCmdLayouts() []string {
-	if vrt.Tier() == 1 {
-		return []string{"1s:2s", "1s:2s,2s:4s", "1s:3s,3s:6s"}
-	}
+	// both tiers use the same two layouts; the thorough tier adds all-archive selections on the
+	// 2-level layout and never-written archives on the 1-level layout
 	return []string{"1s:2s", "1s:2s,2s:4s"}
 }
 
